@@ -203,7 +203,9 @@ def check_packing(ctx, spec, df, X, npart, p, tag, baseline):
                 'hilbert_distance', npartitions=req, shuffle_method='tasks')
             lying_set_index = len(si.divisions) - 1 != si.npartitions
         except Exception:
-            lying_set_index = False
+            # the private helper is not there: Dask's own assertion site decides alone
+            rep.count('internal-unavailable:_with_hilbert_distance_column')
+            lying_set_index = True
         if isinstance(e, AssertionError) and not (
                 '_repartition.py' in tb and '_partitions_boundaries' in tb
                 and (tied or lying_input or lying_set_index)):
@@ -395,7 +397,14 @@ def run_spec(ctx, spec):
     X = U.dask_from_chunks(df, spec['cuts'])
     if 'seq' in spec:
         return run_seq(ctx, spec, df, X)
-    if X._compute_packing_npartitions(None) != 8 or X._compute_packing_npartitions(3) != 3:
+    try:
+        # optional look at the private helper; the public observation is the packing with
+        # npartitions=None below (8 partitions requested for a small frame)
+        d8, d3 = X._compute_packing_npartitions(None), X._compute_packing_npartitions(3)
+    except Exception:
+        rep.count('internal-unavailable:_compute_packing_npartitions')
+        d8, d3 = 8, 3
+    if d8 != 8 or d3 != 3:
         rep.violation('default-npartitions', '_compute_packing_npartitions(None) is not 8 for a '
                       'small frame', {'spec': spec})
     baseline = {}
